@@ -3,6 +3,7 @@ package gen
 import (
 	"fmt"
 	"math/rand"
+	"strings"
 
 	"verif/cfg"
 )
@@ -54,6 +55,40 @@ func Inject(r *rand.Rand, c *cfg.Config, kind string, n int) {
 	switch kind {
 	case "missing-param":
 		name := fmt.Sprintf("nopeP%d", n)
+		if len(c.Params) >= 2 && r.Intn(4) == 0 {
+			// a wide pattern (5-9 references, one of them dangling, at any position) that is compiled early, followed by other
+			// multi-chunk patterns compiled later
+			k := 5 + r.Intn(5)
+			at := r.Intn(k)
+			var sb strings.Builder
+			for j := 0; j < k; j++ {
+				if j == at {
+					sb.WriteString("%" + name + "%")
+				} else {
+					sb.WriteString("%" + c.Params[r.Intn(len(c.Params))].K + "%")
+				}
+				sb.WriteString([]string{"", ":", "-", "/"}[r.Intn(4)])
+			}
+			later := func() string {
+				var lb strings.Builder
+				for j := 0; j < 2+r.Intn(5); j++ {
+					lb.WriteString("%" + c.Params[r.Intn(len(c.Params))].K + "%" + []string{"", ":", " "}[r.Intn(3)])
+				}
+				return lb.String()
+			}
+			np := len(c.Params)
+			if r.Intn(2) == 0 {
+				c.Params = append(c.Params, cfg.KV{K: fmt.Sprintf("AAWide%d", n), V: cfg.Str(sb.String())})
+			} else {
+				c.Services = append(c.Services, cfg.Service{Name: fmt.Sprintf("AAWide%d", n), Constructor: cfg.P(`"fixt/pa".New`), Args: []cfg.Val{cfg.Str(sb.String())}})
+			}
+			for j := 0; j < 1+r.Intn(3); j++ {
+				c.Params = append(c.Params, cfg.KV{K: fmt.Sprintf("zzLater%d.%d", n, j), V: cfg.Str(later())})
+				c.Services = append(c.Services, cfg.Service{Name: fmt.Sprintf("zzLater%d.%d", n, j), Constructor: cfg.P(`"fixt/pa".New`), Args: []cfg.Val{cfg.Str("x" + later())}})
+			}
+			_ = np
+			return
+		}
 		switch r.Intn(4) {
 		case 0:
 			c.Params = append(c.Params, cfg.KV{K: fmt.Sprintf("injp%d", n), V: cfg.Str(choose2(r, "%"+name+"%", "a%"+name+"%b", "%%%"+name+"%", "a%%b%%c%"+name+"%d%%e", "%"+name+"%%"+name+"%"))})
